@@ -320,6 +320,8 @@ func (w *world) assign(ctx context.Context, method string) jrpc2.Handler {
 	}
 }
 
+var errBaseCause = errors.New("the embedder's own reason")
+
 type assignFunc func(ctx context.Context, method string) jrpc2.Handler
 
 func (f assignFunc) Assign(ctx context.Context, method string) jrpc2.Handler { return f(ctx, method) }
@@ -495,7 +497,14 @@ func (w *world) exec(i int, st Step) {
 		go once.Do(func() { cli.Close() })
 	case "push":
 		ctx, cancel := context.WithCancel(context.Background())
-		if st.D > 0 {
+		if st.K%3 == 0 {
+			// every third push uses a context with a cause of the caller's own
+			c, cc := context.WithCancelCause(context.Background())
+			ctx, cancel = c, func() { cc(errBaseCause) }
+		}
+		if st.D > 0 && st.K%3 == 0 {
+			ctx, cancel = context.WithTimeoutCause(context.Background(), time.Duration(st.D)*time.Millisecond, errBaseCause)
+		} else if st.D > 0 {
 			ctx, cancel = context.WithTimeout(context.Background(), time.Duration(st.D)*time.Millisecond)
 		} else if st.D < 0 {
 			// a context that can never end: only a reply or the end of the
@@ -699,7 +708,9 @@ func Run(t *testing.T, sc Scenario) (h *History) {
 		var bmu sync.Mutex
 		if sc.Cfg.BaseDeadlineMs > 0 {
 			opts.NewContext = func() context.Context {
-				ctx, cancel := context.WithTimeout(context.Background(), time.Duration(sc.Cfg.BaseDeadlineMs)*time.Millisecond)
+				// (the deadline carries a cause of the embedder's own: what ends the
+				// requests is still the context's DeadlineExceeded)
+				ctx, cancel := context.WithTimeoutCause(context.Background(), time.Duration(sc.Cfg.BaseDeadlineMs)*time.Millisecond, errBaseCause)
 				bmu.Lock()
 				baseCancels = append(baseCancels, cancel)
 				bmu.Unlock()
